@@ -189,4 +189,13 @@ def core_shapes():
         [assign("arr", ["call", V("<builtin>array"), [C(4)], []]), assign("arr", V("i"), sub=[V("i")], loops=[["i", C(0), C(4)]]),
          assign("arr", S(["sub", V("arr"), [V("i")]], C(10)), sub=[V("i")], loops=[["i", V(N), C(3)]]),
          assign(M, S(["sub", V("arr"), [C(0)]], ["sub", V("arr"), [C(2)]])), ninc],
+        # whole-array arithmetic: a sum of an array defined by an earlier statement and an operand of scalar kind (the
+        # kind of the sum is only known once the array's is)
+        [assign("arr", ["call", V("<builtin>array"), [C(3)], []]), assign("arr", S(V("i"), V(N)), sub=[V("i")], loops=[["i", C(0), C(3)]]),
+         assign("arr2", S(V("arr"), C(1))), assign("arr3", S(V(N), P(C(2), V("arr2")))),
+         assign(M, S(V(M), ["call", V("<builtin>len"), [V("arr2")], []], ["sub", V("arr2"), [C(1)]], ["sub", V("arr3"), [C(2)]])), ninc],
+        # the same without subscripting the derived arrays (the subscripts above hit the known lower-bound finding)
+        [assign("arr", ["call", V("<builtin>array"), [C(3)], []]), assign("arr", S(V("i"), V(N)), sub=[V("i")], loops=[["i", C(0), C(3)]]),
+         assign("arr2", S(V("arr"), C(1))), assign("arr3", S(V(N), P(C(2), V("arr2")))),
+         assign(M, S(V(M), ["call", V("<builtin>len"), [V("arr2")], []], P(C(2), ["call", V("<builtin>len"), [V("arr3")], []]))), ninc],
     ]
